@@ -224,6 +224,12 @@ fn is_2_5_smooth(mut n: u64) -> bool {
 fn prob_strings(weights: &[f64], decimal: bool) -> Vec<String> {
     // CLI games carry small integer weights; anything else is approximated to thousandths
     // with the last entry taking the remainder so that the sum is exactly one
+    if weights.iter().any(|w| *w == 0.0) {
+        // (invalid on purpose, C17) a zero-probability outcome next to a proper distribution
+        let rest: Vec<f64> = weights.iter().cloned().filter(|w| *w != 0.0).collect();
+        let mut it = prob_strings(&rest, decimal).into_iter();
+        return weights.iter().map(|w| if *w == 0.0 { "0".to_string() } else { it.next().unwrap() }).collect();
+    }
     let ints: Vec<u64> = weights.iter().map(|w| w.round() as u64).collect();
     let all_int = weights.iter().zip(&ints).all(|(w, i)| (*w - *i as f64).abs() < 1e-12 && *i > 0);
     if all_int {
